@@ -11,8 +11,8 @@ EXTENDS Trash, Json
 
 CONSTANTS Depth
 
-VARIABLES hist, done
-hvars == <<vars, hist, done>>
+VARIABLES hist, done, init0
+hvars == <<vars, hist, done, init0>>
 
 StdKind == [o \in Objs |-> CASE o % 4 = 1 -> "file" [] o % 4 = 2 -> "dir" [] o % 4 = 3 -> "link" [] OTHER -> "dlink"]
 TopOn(v, x) == [r \in Regions |-> IF r = v THEN x ELSE "absent"]
@@ -22,7 +22,7 @@ SimCfgs ==
           top     : {TopOn("V1", x) : x \in {"absent", "sticky", "nonsticky"}},
           altfile : {{}},
           xdg     : {"set", "unset"},
-          home    : {"set"},
+          home    : {"set"}, hlink : {"none"},
           kind    : {StdKind}] : TRUE}
 
 SimLocs == {[r |-> r, d |-> d, n |-> n] : r \in {"R", "V1", "V2"}, d \in {"top", "d", "de"}, n \in Names}
@@ -32,9 +32,17 @@ InitSim ==
   /\ dirs = {[r |-> r, d |-> "top"] : r \in Regions} \cup {[r |-> r, d |-> d] : r \in {"R", "V1", "V2"}, d \in {"d", "de"}}
   /\ live = {[r |-> "R", d |-> "d", n |-> "a", o |-> 1], [r |-> "V1", d |-> "d", n |-> "a", o |-> 2],
              [r |-> "V1", d |-> "de", n |-> "b", o |-> 3], [r |-> "R", d |-> "top", n |-> "b", o |-> 4]}
-  /\ tex = {} /\ items = {} /\ orph = {} /\ strays = {} /\ junk = {}
+  \* some histories start with entries that another session / implementation left in the volume trash directories
+  \* (both $topdir/.Trash/$uid and $topdir/.Trash-$uid may hold entries at the same time)
+  /\ \E seeded \in BOOLEAN :
+       /\ items = IF ~seeded THEN {}
+                  ELSE {[t |-> "t2:V1", o |-> 8, r |-> "V1", d |-> "top", n |-> "a", date |-> 0]}
+                       \cup (IF cfg.top["V1"] = "sticky" THEN {[t |-> "t1:V1", o |-> 9, r |-> "V1", d |-> "top", n |-> "b", date |-> 0]} ELSE {})
+       /\ tex = {i.t : i \in items}
+  /\ orph = {} /\ strays = {} /\ junk = {}
   /\ clock = 0 /\ purged = {} /\ out = [cmd |-> "init"]
   /\ hist = << >> /\ done = FALSE
+  /\ init0 = [live |-> live, dirs |-> dirs, tex |-> tex, items |-> items, orph |-> {}, strays |-> {}, junk |-> {}, clock |-> 0, purged |-> {}]
 
 LiveArgs == {[class |-> "entry", r |-> e.r, d |-> e.d, n |-> e.n] : e \in live}
 DefOpts == [force |-> FALSE, inter |-> "off", td |-> "none", hf |-> FALSE, hfenv |-> FALSE]
@@ -65,7 +73,7 @@ SimStep ==
 \* steps that change nothing teach little: prefer progress (still behaviours of the specification)
 NextSim ==
   /\ Len(hist) < Depth
-  /\ ~done /\ done' = FALSE
+  /\ ~done /\ done' = FALSE /\ init0' = init0
   /\ SimStep
   /\ hist' = Append(hist, [lab |-> out', post |-> St',
                            lines |-> ListApply(cfg, St', "none").out.lines,
@@ -80,7 +88,7 @@ NextSim ==
 
 \* In simulation mode TLC evaluates invariants on every successor, chosen or not.  The last step of a
 \* history is therefore a deterministic Finish step, so that each simulated history is printed once.
-Finish == /\ Len(hist) = Depth /\ ~done /\ done' = TRUE /\ UNCHANGED <<vars, hist>>
+Finish == /\ Len(hist) = Depth /\ ~done /\ done' = TRUE /\ UNCHANGED <<vars, hist, init0>>
 NextSimF == NextSim \/ Finish
-AtEnd == ~done \/ PrintT("@@" \o ToJson([cfg |-> cfg, hist |-> hist]))
+AtEnd == ~done \/ PrintT("@@" \o ToJson([cfg |-> cfg, init |-> init0, hist |-> hist]))
 =============================================================================
